@@ -40,6 +40,9 @@ PROGRAMS = [
     ("runner", "src/runner.c",
      ["run_the_test_code", "run_test_in_the_current_process", "run_test_suite", "run_single_test"]),
     ("platform", "src/posix_runner_platform.c", ["in_child_process", "die_in", "stop"]),
+    # the walk over the suite tree (with the helpers of src/suite.c it calls)
+    ("walk", ["src/runner.c", "src/suite.c"],
+     [["run_every_test", "run_named_test"], ["has_test", "count_tests", "has_setup", "has_teardown"]]),
     # the expectation queue of the mock engine
     ("mocks", "src/mocks.c",
      ["find_expectation", "remove_expectation_for", "have_always_expectation_for",
@@ -301,6 +304,7 @@ class Fn:
             if t in ("I8", "U8"):
                 return "(ELoad %s (EBin OAdd %s %s))" % (t, self.expr(e["inner"][0]), self.expr(e["inner"][1]))
             q = node_type(e)
+            q = (self.tu.get("typedefs") or {}).get(q.replace("const ", "").strip(), q)
             if q.endswith("*") or q.startswith("struct ") or q.startswith("union ") or "struct " in q:
                 return "(EIndex %s %s)" % (self.expr(e["inner"][0]), self.expr(e["inner"][1]))
             raise Cannot("subscript of an array of " + node_type(e))
@@ -699,10 +703,11 @@ def generate(repo, gen_dir, pinned_dir, bdir=None):
     status, current = {}, {}
     tus = {}
     files = {}
-    for prog, rel, fns in PROGRAMS:
+    for prog, rel0, fns0 in PROGRAMS:
         out = [HEADER]
         names = []
-        for f in fns:
+        pairs = [(rel0, f) for f in fns0] if isinstance(rel0, str) else [(r, f) for r, fs in zip(rel0, fns0) for f in fs]
+        for rel, f in pairs:
             key = "code_" + f
             try:
                 if rel not in tus:
